@@ -320,9 +320,9 @@ theorem insertOrdered_own (sv : Server) (sid : Nat) (s : Sess) (hs : sv.sess? si
   refine OnlyOwn.trans ?_ (updSess_own _ sid _ _ (by intro _; exact ⟨rfl, rfl, rfl⟩))
   exact insertOrderedChild_own sv2 sid sid _ _ _ _ hp
 
-theorem reorder_own (sv : Server) (sid : Nat) (s : Sess) (hs : sv.sess? sid = some s) (key before : Bytes) :
-    OnlyOwn sid (sessNames s) sv (reorder sv sid key before) := by
-  unfold reorder
+theorem reorderCore_own (sv : Server) (sid : Nat) (s : Sess) (hs : sv.sess? sid = some s) (key before : Bytes) :
+    OnlyOwn sid (sessNames s) sv (reorderCore sv sid key before) := by
+  unfold reorderCore
   rw [hs]
   simp only []
   apply OnlyOwn.foldl
@@ -337,6 +337,15 @@ theorem reorder_own (sv : Server) (sid : Nat) (s : Sess) (hs : sv.sess? sid = so
       apply reorderChild_own
       apply prefix_dropLast hp
       rw [sessNames_length]; omega
+
+theorem reorder_own (sv : Server) (sid : Nat) (s : Sess) (hs : sv.sess? sid = some s) (key before : Bytes) :
+    OnlyOwn sid (sessNames s) sv (reorder sv sid key before) := by
+  unfold reorder
+  rw [hs]
+  simp only []
+  split
+  · exact OnlyOwn.trans (reorderCore_own sv sid s hs key before) (updSess_own _ sid _ _ (by intro _; exact ⟨rfl, rfl, rfl⟩))
+  · exact reorderCore_own sv sid s hs key before
 
 /-! ## client-to-client Messages -/
 
